@@ -30,6 +30,27 @@ class Ctx:
         self.classes = Counter()
         self.violations = []
         self.nontrivial = False
+        self.watched = []
+
+    def watch(self, obj, label):
+        """a bystander (e.g. a curve built on the same KnotVector object as the curve under test): its state is compared
+        with this snapshot when the case ends"""
+        from . import lib
+
+        self.watched.append((obj, lib.curve_digest(obj), label))
+
+    def verify_watched(self):
+        from . import lib
+
+        for obj, pre, label in self.watched:
+            self.counters["bystanders_verified"] += 1
+            try:
+                post = lib.curve_digest(obj)
+            except Exception as e:
+                post = f"digest raises {e!r}"
+            if post != pre:
+                self.violation(f"bystander-modified:{label}", f"a {label} that took part in no operation changed during the case", before=lib_short(pre, 300), after=lib_short(post, 300))
+        self.watched = []
 
     # -- reporting api used by checks
     def count(self, name, n=1):
@@ -197,6 +218,7 @@ def run_one(mod, case, prop, tier, S, allow_trace=True):
     try:
         try:
             mod.run_case(case, ctx)
+            ctx.verify_watched()
         finally:
             signal.setitimer(signal.ITIMER_REAL, 0)
     except CaseTimeout:
